@@ -13,6 +13,7 @@
 mod rng;
 mod devices;
 mod illdim;
+mod longrun;
 mod scalars;
 mod streams;
 mod util;
@@ -59,7 +60,7 @@ fn main() {
         // (every rrtk call inside the sections is under panic capture already; the outer guard only
         // turns an escape into an observation instead of a dead process)
         let pwr = &pw;
-        let sections: [(&str, &dyn Fn(&mut Tr, &mut G)); 15] = [
+        let sections: [(&str, &dyn Fn(&mut Tr, &mut G)); 16] = [
             ("section.quantities", &scalars::quantities),
             ("section.states", &scalars::states),
             ("section.commands", &scalars::commands),
@@ -75,9 +76,16 @@ fn main() {
             ("section.three_terminal", &devices::three_terminal),
             ("section.wrappers", &devices::wrappers),
             ("section.exact_points", &move |tr: &mut Tr, g: &mut G| streams::exact_points(tr, g, pwr)),
+            ("section.interference", &longrun::interference),
         ];
         for (name, f) in sections {
             guarded(&mut tr, name, |tr| f(tr, &mut g));
+        }
+        // long-running streams: every 8th program, own generator stream
+        if i % 8 == 0 {
+            let mut g3 = G::new(seed, 1903, i);
+            guarded(&mut tr, "section.long_runs", |tr| longrun::long_runs(tr, &mut g3, pwr));
+            g.acc ^= g3.acc;
         }
         // every input drawn so far, hashed: differs between builds only if the harness itself is
         // not deterministic (the driver then says INCONCLUSIVE, not VIOLATION)
